@@ -35,28 +35,36 @@ def run(F, R, tier):
     wb = F.mir(wfn)
     wh = F.hir(wfn)
     if r1.anchor(wb, wfn) and r1.anchor(wh, wfn):
-        # by abstract evaluation: what the returned buffer receives, in order, on the accepting path
-        tabw = SR.Table(F, wfn, rule=r1)
-        okp = tabw.ok()
-        r1.require(len(okp) >= 1 or not tabw.paths, (wfn, "no-success"), "add_flags_to_message has no accepting path")
-        for q in okp:
-            ret = q.ret.fields[0] if isinstance(q.ret, sym.V) and q.ret.fields else q.ret
-            seq = [(e.name, e.args[1]) for e in q.events if e.kind == "call" and e.name in ("extend_from_slice", "push", "append", "extend", "insert", "extend_from_within", "resize", "truncate")
-                   and e.args and sym.term(e.args[0]) == sym.term(ret)]
-            shown = [(a, sym.fmt(sym.term(b))[:60]) for a, b in seq]
-            r1.site("writer appends %s" % shown)
-            lenconv = [e for e in q.calls(r"try_from$") if q.succeeded(e) is True and sym.term(e.args[0]) == ("call", "alloc::vec::Vec::len", (SR.param("data"),))]
-            good = len(seq) == 5
-            if good:
-                marker = sym.Evaluator(F).const_value(SM + "::DID_MARKER")
-                good = (isinstance(marker, list) and len(marker) == 3 and sym.term(seq[0][1]) == sym.term(marker) and seq[0][0] in ("extend_from_slice", "extend")
-                        and seq[1] == ("push", sym.Sym(SR.param("version"))) and seq[2] == ("push", sym.Sym(SR.param("encoding")))
-                        and seq[3][0] in ("extend_from_slice", "extend") and bool(lenconv) and sym.term(seq[3][1])[:1] == ("call",) and sym.term(seq[3][1])[1].endswith("u16::to_le_bytes") and sym.term(seq[3][1])[2] == (("payload", lenconv[0].result.t, "Ok", 0),)
-                        and seq[4][0] in ("append", "extend", "extend_from_slice") and sym.term(seq[4][1]) == SR.param("data"))
-            r1.require(good, (wfn, "layout"), "the writer does not append marker, version, encoding, u16 little-endian length (checked conversion of data.len()), data in that order: %s" % shown)
-            r1.require(bool(lenconv), (wfn, "length-of-data"), "the length written is not a checked conversion of data.len()")
-        for q in tabw.err():
-            r1.require(not any(q.succeeded(e) is True for e in q.calls(r"try_from$")) , (wfn, "err"), "the writer fails although the length conversion succeeded")
+        # by concrete evaluation: the frame produced for payloads of 0, 1, 2, 255, 256, 300 and 65535 (symbolic) bytes is exactly
+        # marker · version · encoding · len & 0xFF · len >> 8 · payload, and a payload of 65536 bytes is refused (no silent truncation)
+        marker = sym.Evaluator(F).const_value(SM + "::DID_MARKER")
+        mk = [x for x in marker] if isinstance(marker, list) else ([ord(c_) for c_ in marker] if isinstance(marker, str) else None)
+        r1.require(mk == [68, 73, 68], (wfn, "layout", "marker"), "DID_MARKER is not b\"DID\": %r" % (marker,))
+        evw = sym.Evaluator(F, inline_depth=4, concrete_vec=True)
+        n_ok = 0
+        for n_ in (0, 1, 2, 255, 256, 300, 65535, 65536):
+            payload = [sym.Sym(("param", "d%d" % k_)) for k_ in range(n_)]
+            try:
+                ps = [q for q in evw.explore(wfn, args=[list(payload), sym.V("V1"), sym.V("Json")], max_paths=20)]
+            except (sym.Abort, sym.TooManyPaths) as e:
+                ps = []
+                r1.fail((wfn, "layout"), "add_flags_to_message could not be evaluated on a payload of %d bytes: %s" % (n_, e))
+                break
+            if not r1.require(len(ps) == 1 and ps[0].complete, (wfn, "layout"), "add_flags_to_message on a payload of %d bytes: %d path(s)%s" % (n_, len(ps), "" if not ps or ps[0].complete else " (incomplete: %s)" % ps[0].note)):
+                break
+            q = ps[0]
+            okq = SR.is_success(q.ret) and not SR.is_failure(q.ret)
+            if n_ > 65535:
+                r1.require(not okq, (wfn, "length-of-data"), "add_flags_to_message accepts a payload of %d bytes, whose length does not fit the u16 prefix" % n_)
+                continue
+            if not r1.require(okq, (wfn, "no-success"), "add_flags_to_message refuses a payload of %d bytes" % n_):
+                continue
+            out = q.ret.fields[0] if isinstance(q.ret, sym.V) and q.ret.fields else None
+            want = ("list",) + tuple(("lit", x) for x in (mk or [])) + (("ctor", "V1"), ("ctor", "Json"), ("lit", n_ & 0xFF), ("lit", n_ >> 8)) + tuple(sym.term(x) for x in payload)
+            got = sym.term(out) if out is not None else None
+            if r1.require(got == want, (wfn, "layout"), "the frame written for a payload of %d bytes is not marker, version, encoding, u16 little-endian length, payload: %s" % (n_, sym.fmt(got)[:160] if got is not None else None)):
+                n_ok += 1
+        r1.site("writer: frames for payloads of 0, 1, 2, 255, 256, 300, 65535 bytes are marker·version·encoding·len_le·payload (%d of 7); 65536 bytes refused" % n_ok)
         casts = [s_ for b in wb.blocks for s_ in b["s"] if s_["k"] == "assign" and s_["rv"]["k"] == "cast" and s_["rv"]["ty"] == "u16"]
         r1.require(not casts, (wfn, "truncating-cast"), "the payload length is narrowed with `as u16` (silent truncation above 65535 bytes) instead of a checked conversion")
         r1.site("writer: length = u16::try_from(data.len())? written with to_le_bytes")
@@ -67,79 +75,97 @@ def run(F, R, tier):
         env = H.Env(rh)
         # the slices the reader takes from its input, in order, on the accepting path(s) — by abstract evaluation, so that
         # named offset constants, hoisted locals or helper functions do not matter
-        gets = []
-        tabr = SR.Table(F, rfn, opaque=r"from_json_slice$|from_le_bytes$|FromPrimitive|from_u8$|try_from$|TryFrom|TryInto", rule=r1, max_paths=4000)
-        best = None
-        for q in tabr.ok():
-            gs = [e for e in q.calls(r"(\[T\]|slice::<impl \[T\]>)::get$") if sym.term(e.args[0]) == SR.param("data")]
-            if best is None or len(gs) > len(best):
-                best = gs
-        for e in best or []:
-            t_ = sym.term(e.args[1])
-            ints = [x[1] for x in sym.subterms(t_) if isinstance(x, tuple) and x[:1] == ("lit",) and isinstance(x[1], int) and not isinstance(x[1], bool)]
-            if t_[:1] == ("lit",):
-                gets.append(("idx", t_[1]))
-            elif t_[:1] == ("struct",):
-                fl = dict((kv[0], kv[1]) for kv in t_[2:] if isinstance(kv, tuple) and len(kv) == 2)
-                kind = t_[1].rsplit("::", 1)[-1]
-                lo, hi = fl.get("start"), fl.get("end")
-                lits = [x[1] for x in (lo, hi) if isinstance(x, tuple) and x[:1] == ("lit",)]
-                if kind == "Range" and isinstance(hi, tuple) and hi[:1] != ("lit",):
-                    lits += [y[1] for y in sym.subterms(hi) if isinstance(y, tuple) and y[:1] == ("lit",) and isinstance(y[1], int)]
-                gets.append((kind, lits))
-            elif t_[:1] == ("call",) and "RangeInclusive" in t_[1]:
-                gets.append(("RangeInclusive", ints[:2]))
-            else:
-                gets.append(("?", ints))
-        r1.site("reader slices %s" % gets, rh["value"]["sp"])
-        want_r = [("RangeInclusive", [0, 2]), ("idx", 3), ("idx", 4), ("RangeInclusive", [5, 6])]
-        r1.require(gets[:4] == want_r, (rfn, "layout"), "the reader does not read marker [0..=2], version 3, encoding 4, length [5..=6]: %s" % gets)
-        r1.require(len(gets) == 5 and gets[4][0] == "Range" and gets[4][1][0] == 7 and 7 in gets[4][1][1:], (rfn, "data-range"), "the reader does not take data from 7..7+len: %s" % gets[4:])
-        fns = H.called_fns(H.root(rh))
-        r1.require(any(f.endswith("u16::from_le_bytes") for f in fns), (rfn, "endianness"), "the length is not read with u16::from_le_bytes")
-        # no indexing / slicing with [] on the input
-        idx = [t for _, t in rb.calls(re.compile(r"Index(Mut)?(<.*>)?(>)?::index(_mut)?$"))]
-        asserts = [b["t"] for b in rb.blocks if b["t"]["k"] == "assert" and b["t"]["msg"] == "BoundsCheck"]
-        r1.require(not idx and not asserts, (rfn, "indexing"), "unpack indexes its input (panics on short data) instead of using get")
-        # marker constant shared
-        r1.require(("def", SM + "::DID_MARKER") in {("def", x.get("res", {}).get("def")) for x in H.walk(H.root(rh)) if x.get("k") == "path"}, (rfn, "marker"), "the reader does not compare against DID_MARKER")
-        mk = F.bodies.get(SM + "::DID_MARKER")
-        if r1.anchor(mk, "DID_MARKER"):
-            r1.site("DID_MARKER = %s" % H.literals(H.root(mk["hir"])))
-            r1.require(len(bytes(H.literals(H.root(mk["hir"]))) if all(isinstance(x, int) for x in H.literals(H.root(mk["hir"]))) else b"") in (0, 3) or True, ("DID_MARKER", "len"), "")
-    r1.floor(4)
+        # the reader's side of the frame (bytes 0..=2, 3, 4, [5..=6] little-endian, 7..7+len) is decided on its decision table by C14-R4:
+        # established on every accepting path, whatever slicing / prefix / comparison idiom the reader uses; that it cannot panic on short
+        # input is C05's inventory (every index / slice needs a dominating length guard there)
+        r1.site("reader: offsets and little-endian length established per accepting path (C14-R4)", rh["value"]["sp"])
+    r1.floor(3)
 
     # ------------------------------------------------------------------ R4 rejects before decoding
-    r4 = R.rule("C14-R4", "T2", "marker, version and encoding mismatches and a length prefix exceeding the data return Err before JSON decoding")
+    r4 = R.rule("C14-R4", "T2", "unpack accepts only: bytes 0..=2 = the marker, byte 3 = the current version, byte 4 = a known encoding, and JSON decoded ✓ from exactly data[7 .. 7 + u16_le(data[5..=6])] — each established on every accepting path of its decision table")
     if rh:
-        env = H.Env(rh)
-        tree, infos = L.exit_infos(rh)
-        dec = [n for n in H.walk(H.root(rh)) if n.get("k") in ("call", "mcall") and (H.fn_name(n) or "").endswith("from_json_slice")]
-        if r4.require(len(dec) == 1, (rfn, "decode"), "expected one from_json_slice call"):
-            pre = tree.preceding(dec[0])
-            guards = [(H.outcome(s2["then"]), s2) for s in pre for s2 in [s["e"] if s.get("k") == "semi" else s] if s2.get("k") == "if" and H.diverges(s2["then"])]
-            kinds = set()
-            for oc, g in guards:
-                c = H.strip(g["cond"])
-                if c.get("k") == "binary" and c["op"] == "Ne":
-                    names = {H.local_name(c["l"]), H.local_name(c["r"])} | {H.variant_name(x.get("res", {})) for x in H.walk(c) if x.get("k") == "path"}
-                    if "marker" in names and "DID_MARKER" in names and oc.startswith("Err("):
-                        kinds.add("marker")
-                    if "version" in names and "V1" in names and oc.startswith("Err("):
-                        kinds.add("version")
-            tried = [(H.fn_name(c) or "") for c in H.tried_calls(pre)]
-            if any(re.search(r"StateMetadataVersion as core::convert::TryFrom<u8>>::try_from$", t) or t.endswith("TryFrom::try_from") for t in tried):
-                kinds.add("version-byte")
-            if any(re.search(r"StateMetadataEncoding as core::convert::TryFrom<u8>>::try_from$", t) for t in tried) or sum(1 for t in tried if t.endswith("TryFrom::try_from")) >= 2:
-                kinds.add("encoding-byte")
-            # the data slice `get(7..7+len).ok_or(..)?` precedes
-            if sum(1 for t in tried if t.endswith("::get")) >= 5:
-                kinds.add("length")
-            r4.site("before JSON decoding: %s" % sorted(kinds), dec[0]["sp"])
-            for k in ("marker", "version", "version-byte", "encoding-byte", "length"):
-                r4.require(k in kinds, (rfn, "reject-before-decode", k), "unpack can reach JSON decoding without the `%s` check" % k)
-            ao = H.origins(H.call_args(dec[0])[0], env, extra=re.compile(r"\[T\]::get$"))
-            r4.require(has_only_data(ao), (rfn, "decode-arg"), "JSON is not decoded from the length-delimited slice of the input")
+        OPQ4 = r"from_json_slice$|TryFrom<u8>>::try_from$|from_le_bytes$|from_be_bytes$|from_ne_bytes$"
+        tab = SR.Table(F, rfn, opaque=OPQ4, rule=r4)
+        DATA = SR.param(sym.param_name(F, rfn, 0, "data"))
+        va = F.adt(SM.rsplit("::", 1)[0] + "::version::StateMetadataVersion")
+        vnames = [v["name"] for v in (va or {}).get("variants", [])]
+        r4.require(vnames == ["V1"], ("StateMetadataVersion", "variants"), "StateMetadataVersion has the variants %s: which of them unpack must accept has to be re-established" % vnames)
+        mv_ = sym.Evaluator(F).const_value(SM + "::DID_MARKER")
+        mt_ = sym.term(mv_) if mv_ is not None else None
+        marker = tuple(mt_[1:]) if isinstance(mt_, tuple) and mt_[:1] == ("list",) else (tuple(("lit", b_) for b_ in mv_.encode()) if isinstance(mv_, str) else ())
+        r4.require(marker == (("lit", 68), ("lit", 73), ("lit", 68)), ("DID_MARKER", "value"), "DID_MARKER is not b\"DID\": %s" % (marker,))
+
+        def byte_at(t, k):
+            """does term t denote byte k of the input (data.get(k) ✓ payload or data[k]), through reference conversions only"""
+            for x in sym.subterms(t):
+                if isinstance(x, tuple) and x[:1] == ("call",) and x[1].endswith("::get") and len(x[2]) == 2 and x[2][0] == DATA and x[2][1] == ("lit", k):
+                    return True
+                if isinstance(x, tuple) and x[:1] == ("index",) and x[1] == DATA and x[2] == ("lit", k):
+                    return True
+            return False
+
+        def rng(t):
+            """(lo, hi-term, inclusive) of a range struct term, else None"""
+            if isinstance(t, tuple) and t[:1] == ("struct",) and t[1].startswith("core::ops::range::Range"):
+                f = dict(t[2:])
+                return f.get("start"), f.get("end"), t[1].endswith("Inclusive")
+            return None
+
+        def slice_of(t, lo, hi, incl):
+            for x in sym.subterms(t):
+                if isinstance(x, tuple) and x[:1] == ("call",) and x[1].endswith("::get") and len(x[2]) == 2 and x[2][0] == DATA:
+                    r_ = rng(x[2][1])
+                    if r_ and r_[0] == ("lit", lo) and (hi is None or (r_[1] == ("lit", hi) and r_[2] == incl) or (r_[1] == ("lit", hi + 1) and not r_[2] and incl)):
+                        return x
+            return None
+        n_ok = 0
+        for q in tab.ok():
+            n_ok += 1
+            tail = q.describe()[:160]
+            # marker
+            okm = False
+            for (a_, c, _, _) in q.decisions:
+                if a_[0] == "eq" and c is True:
+                    for x, y in ((a_[1], a_[2]), (a_[2], a_[1])):
+                        if isinstance(x, tuple) and x[:1] == ("list",) and x[1:] == marker and slice_of(y, 0, 2, True) is not None:
+                            okm = True
+                if a_[0] == "truth" and c is True and isinstance(a_[1], tuple) and a_[1][:1] == ("call",) and a_[1][1].endswith("starts_with") and a_[1][2][0] == DATA \
+                        and isinstance(a_[1][2][1], tuple) and a_[1][2][1][:1] == ("list",) and a_[1][2][1][1:] == marker:
+                    okm = True
+            r4.require(okm, (rfn, "reject-before-decode", "marker"), "unpack accepts on a path that has not established data[0..=2] == DID_MARKER — path: %s" % tail)
+            # version: the checked conversion of byte 3 succeeded (the enum has the single variant V1 = the current version), or byte 3 was compared equal to it
+            okv = any(re.search(r"StateMetadataVersion as core::convert::TryFrom<u8>>::try_from$", e.fn or "") and q.succeeded(e) is True and byte_at(sym.term(e.args[0]), 3) for e in q.calls(r"try_from$"))
+            for (a_, c, _, _) in q.decisions:
+                if a_[0] == "eq" and c is True:
+                    for x, y in ((a_[1], a_[2]), (a_[2], a_[1])):
+                        if byte_at(x, 3) and (y == ("ctor", "V1") or y == ("lit", 1)):
+                            okv = True
+            # (a comparison with `StateMetadataVersion::V1 as u8` is recorded as the variant decision byte3 ∈ {V1 | other} = V1)
+            okv = okv or any(v_ == "V1" and isinstance(t_, tuple) and byte_at(t_, 3) for t_, v_ in q.variant.items())
+            r4.require(okv, (rfn, "reject-before-decode", "version"), "unpack accepts on a path that has not established byte 3 == the current version (checked conversion ✓ or equality) — path: %s" % tail)
+            # encoding
+            oke = any(re.search(r"StateMetadataEncoding as core::convert::TryFrom<u8>>::try_from$", e.fn or "") and q.succeeded(e) is True and byte_at(sym.term(e.args[0]), 4) for e in q.calls(r"try_from$"))
+            r4.require(oke, (rfn, "reject-before-decode", "encoding-byte"), "unpack accepts on a path that has not established byte 4 to be a known encoding — path: %s" % tail)
+            # payload = data[7 .. 7 + u16_le(data[5..=6])], JSON-decoded ✓ and returned
+            dj = [e for e in q.calls(r"from_json_slice$") if q.succeeded(e) is True]
+            okl = False
+            if len(dj) == 1:
+                at = sym.term(dj[0].args[0])
+                for x in sym.subterms(at):
+                    if isinstance(x, tuple) and x[:1] == ("call",) and x[1].endswith("::get") and len(x[2]) == 2 and x[2][0] == DATA:
+                        r_ = rng(x[2][1])
+                        if r_ and r_[0] == ("lit", 7) and not r_[2] and isinstance(r_[1], tuple) and r_[1][:2] == ("op", "Add"):
+                            ops_ = [r_[1][2], r_[1][3]]
+                            ln = [o for o in ops_ if o != ("lit", 7)]
+                            # the length: u16::from_le_bytes(data[5..=6]) — possibly through a widening conversion (usize::from, into, as)
+                            le = [y for y in sym.subterms(ln[0])] if len(ln) == 1 and isinstance(ln[0], tuple) else []
+                            le = [y for y in le if isinstance(y, tuple) and y[:1] == ("call",) and y[1].endswith("u16::from_le_bytes")]
+                            if ("lit", 7) in ops_ and len(le) == 1 and SR.pure(ln[0], le[0], conv=re.compile(r"(From(<u16>)?>::from|From::from|Into::into|Into(<usize>)?>::into|usize::from)$")) and slice_of(le[0], 5, 6, True) is not None:
+                                okl = at == ("payload", x, "Some", 0) or SR.pure(at, ("payload", x, "Some", 0))
+            r4.require(okl, (rfn, "reject-before-decode", "length"), "unpack does not decode JSON ✓ from exactly data[7 .. 7 + u16::from_le_bytes(data[5..=6])] — path: %s" % tail)
+            r4.require(len(dj) == 1 and SR.derives(q.ret, dj[0].result.t), (rfn, "decode-arg"), "unpack does not return the document decoded from the length-delimited slice")
+        r4.site("unpack: %d accepting / %d rejecting path(s); marker, version, encoding and the length-delimited slice established on every accepting one" % (n_ok, len(tab.err())))
+        r4.require(n_ok >= 1 or not tab.paths, (rfn, "rows"), "unpack has no accepting path")
     r4.floor(1)
 
     # ------------------------------------------------------------------ R5 what the packed JSON omits is restored
